@@ -782,8 +782,8 @@ class C14(core.Check):
             for _ in range(8000):
                 yield self.random_case(rng, rng.choice([3, 6, 10, 16]))
         else:
-            yield from self.exhaustive(4, rng, 0.05)
-            for _ in range(40000):
+            yield from self.exhaustive(4, rng, 1.0)
+            for _ in range(120000):
                 yield self.random_case(rng, rng.choice([3, 6, 10, 16, 30]))
 
     def search_cases(self, rng, tier):
